@@ -180,15 +180,6 @@ theorem fmin_nan (F : Fmt) (x y : Nat) (hx : F.isNaN x = true) (hy : F.isNaN y =
 
 /-! ### nextafter -/
 
-theorem isNaN_zero (F : Fmt) : F.isNaN 0 = false := by
-  unfold Fmt.isNaN Fmt.abs; simp
-
-theorem key_zero (F : Fmt) : F.key 0 = 0 := by
-  unfold Fmt.key Fmt.sign Fmt.abs; simp
-
-theorem key_eq_zero_iff (F : Fmt) (x : Nat) : F.key x = 0 ↔ F.abs x = 0 := by
-  unfold Fmt.key; cases F.sign x <;> simp
-
 /-- tetl's nextafter (fixed code) is the spec, for every pair of patterns -/
 theorem nextafter_model_eq (F : Fmt) (x y : Nat) : Model.nextafter F x y = F.nextafter x y := by
   unfold Model.nextafter Fmt.nextafter
